@@ -97,14 +97,14 @@ class Ctx(Part):
         """Run func(item) in forked workers; func returns a Part (merged) or any value."""
         procs = min(procs or NPROC, max(1, len(items)))
         results = []
-        if procs == 1:
-            for it in items:
-                results.append(func(it))
-        else:
-            ctx = multiprocessing.get_context("fork")
-            with ctx.Pool(procs, maxtasksperchild=None) as pool:
-                for r in pool.imap(func, items, chunksize=1):
-                    results.append(r)
+        # One freshly forked worker per item (maxtasksperchild=1), also with a single job: Hypothesis mixes
+        # constants harvested from the modules present in sys.modules into its draws, so the examples drawn in a
+        # worker depend on what that worker imported before.  Fresh forks of the same parent make every item see
+        # the same module set regardless of VERIF_JOBS, which keeps runs reproducible across job counts.
+        mp = multiprocessing.get_context("fork")
+        with mp.Pool(procs, maxtasksperchild=1) as pool:
+            for r in pool.imap(func, items, chunksize=1):
+                results.append(r)
         out = []
         for r in results:
             if isinstance(r, Part):
@@ -112,6 +112,21 @@ class Ctx(Part):
             else:
                 out.append(r)
         return out
+
+
+def _prime():
+    """Import the compiler and the generator libraries in the parent, before anything forks, so that all workers
+    start from the same set of loaded modules (see Ctx.pmap)."""
+    import importlib
+    for name in ("hypothesis.strategies", "Cython.Compiler.Main", "Cython.Compiler.Pipeline", "Cython.Compiler.ExprNodes",
+                 "Cython.Compiler.Nodes", "Cython.Compiler.Optimize", "Cython.Compiler.ParseTreeTransforms",
+                 "Cython.Compiler.ModuleNode", "Cython.Compiler.Code", "Cython.Build.Dependencies", "Cython.Build.Inline",
+                 "Cython.Plex", "Cython.Shadow", "Cython.StringIOTree", "Cython.LZSS", "Cython.Compiler.LineTable",
+                 "Cython.Compiler.FusedNode", "Cython.Compiler.MatchCaseNodes", "Cython.Compiler.Dataclass"):
+        try:
+            importlib.import_module(name)
+        except Exception:
+            pass
 
 
 def load_findings():
@@ -231,6 +246,7 @@ def main(check, argv=None):
     os.environ["TZ"] = "UTC"
     try:
         tree.prepare()
+        _prime()
         ctx = Ctx(pid, tier, args.seed, getattr(check, "LEVEL", "exploration"))
         findings = load_findings()
         if args.replay:
